@@ -143,6 +143,13 @@ CLAIMED["C12"] = dict(cat="other", technique="interprocedural read/write effect 
         "physics; FFT plans come only from prepareFFT, wisdom first. Bit-identity of two concrete executions additionally needs deterministic arithmetic and FFTW, which is assumed, not decided.",
    note="State/observer classification tables are in the rule file with reasons. CPU, non-GUI build. Noise of DynamicRFKickMap is outside the statement (deterministic RF).",
    ref="DESIGN.md §3 C12")
+CLAIMED["C05"] = dict(cat="other", technique="step-structure analysis of the simulation loop (call order, constructor bindings of map grids), freshness typestate of the wake offsets at the kick, copy-without-arithmetic check",
+   text="Decides structural preconditions only: in every iteration wake kick, RF kick, drift and damping/diffusion are applied once each in that order on grids chained t1->t2->t1->t3->t1 "
+        "for every combination of map alternatives; at the wake kick the offsets and the source-map table are up to date with the grid they act on, computed from a fresh X projection of "
+        "that grid by the wake field bound to it; the offsets are the field's wake potential copied without arithmetic, on the same kick axis as the RF kick (the scaling normal form is "
+        "proved under C06). That the stationary state satisfies the Haissinski relation is a numerical fixed point and is NOT decided.",
+   note="One known finding shared with C10 (F6): on renormalising steps the wake is computed before the grid is rescaled.",
+   ref="DESIGN.md §3 C05")
 NOT_YET = "check not built yet in this round (static rule designed in DESIGN.md §3, not implemented)"
 NA = {}
 
